@@ -10,5 +10,6 @@ func init() {
 		LazyCtor(c, "R-LAZY-CTOR", libPkgs(c))
 		ReadAhead(c, "R-READAHEAD", libPkgs(c))
 		StratLazy(c, "R-STRAT-LAZY", libPkgs(c))
+		Bound(c, "R-BOUND", libFuncs(c))
 	})
 }
